@@ -236,6 +236,11 @@ class CookieProber:
             return self.viol('correct_cookie_rejected', {'threshold': thr}, f'request carrying the cookie just issued for it got '
                                                                             f'{[self._kind(e) for e in replies]}')
         self.vector.append('accepted')
+        # ... and that was the cookie's doing, not the SPI's or the address's: once the exchange has been let in, a request with the same SPI
+        # and address that carries no cookie (a late copy of the first datagram, or a forgery with a fresh nonce) is challenged like any other
+        for tag, data in (('late_copy_after_accept', req0), ('same_spi_fresh_nonce_after_accept', build_init(conn_q, spi, rb(len(nonce)), x))):
+            if rejected(tag, data, q) is None:
+                return
 
     @staticmethod
     def _kind(e):
